@@ -18,6 +18,10 @@ Definition rotate_list {T : Type} (l : list T) (k : Z) : list T :=
     let m := Z.to_nat (n - k mod n) in
     skipn m l ++ firstn m l.
 
+(* Capacity clipped to the length: the slice's capacity ends at its own end, so appending to it
+   never writes into the array it was cut from. *)
+Definition clipped (c : view) : Prop := vcap c = vlen c.
+
 (* Consecutive views: cs tile the index range [o, e) of the base, in order, without gaps. *)
 Fixpoint tiles (o : Z) (cs : list view) (e : Z) : Prop :=
   match cs with
